@@ -1,9 +1,20 @@
 #!/bin/sh
-# Build the framework from files on disk only (offline).
+# Build the framework from files on disk only (offline).  A module that fails
+# to build here is reported by its own check; setup itself only fails when
+# nothing could be built.
 here=$(cd "$(dirname "$0")" && pwd)
 cd "$here" || exit 2
-mkdir -p build evidence replays
-if [ -f tools/extract.py ]; then /venv/bin/python tools/extract.py || exit 2; fi
+mkdir -p build evidence replays lean/DaliVerif/Gen
+/venv/bin/python tools/extract.py || exit 2
 cd lean || exit 2
 exes=$(sed -n 's/^name = "\(m_[a-z0-9_]*\)"$/\1/p' lakefile.toml)
-lake build DaliVerif $exes || exit 2
+lake build DaliVerif $exes && exit 0
+echo "setup: full build failed; building targets one by one" >&2
+ok=0
+for m in DaliVerif/Props/*.lean; do
+  t=$(echo "$m" | sed 's/\.lean$//; s#/#.#g')
+  lake build "$t" >/dev/null 2>&1 && ok=1 || echo "setup: $t does not build" >&2
+done
+for e in $exes; do lake build "$e" >/dev/null 2>&1 && ok=1 || echo "setup: $e does not build" >&2; done
+[ "$ok" = 1 ] || exit 2
+exit 0
